@@ -10,7 +10,9 @@
 (*     every further frame is a continuation (C02);                                          *)
 (*   - every frame's payload on the wire has the length its header declares, and for an      *)
 (*     uncompressed message the payload bytes of its frames add up to exactly the bytes the  *)
-(*     caller wrote: nothing lost, nothing duplicated (C01).                                 *)
+(*     caller wrote: nothing lost, nothing duplicated (C01);                                 *)
+(*   - a Close frame carries the status code the goroutine writing it was asked to send --   *)
+(*     Close's own, or the peer's being echoed, never another closer's (C06).                *)
 (* Input: the same per-connection hook trace TraceConn reads.  One event = one step; the     *)
 (* whole state is one record so that each rule names only what it changes.                   *)
 EXTENDS WSFrame, TLC, Json, IOUtils
@@ -22,6 +24,7 @@ vars == <<i, t, bad, skip>>
 
 NoMsg == [on |-> FALSE, g |-> 0, typ |-> 0, fl |-> -1, written |-> 0, framed |-> 0, nf |-> 0, closedW |-> FALSE, broken |-> FALSE]
 Fresh == [flate |-> FALSE, lkmsg |-> 0, lkwmu |-> 0, mw |-> NoMsg,
+          wc |-> [x \in {} |-> 0],     \* goroutine -> status code of the close it is writing (WcBegin)
           fr |-> [on |-> FALSE, g |-> 0, data |-> FALSE, len |-> 0]]     \* the frame whose header was written last
 Init == i = 1 /\ t = Fresh /\ bad = {} /\ skip = FALSE /\ TLCSet(1, 1) /\ TLCSet(2, 0)
 
@@ -77,6 +80,13 @@ Step ==
             IF ~t.fr.on \/ t.fr.g # e.g THEN Same
             ELSE IF e.a # t.fr.len THEN Fail("frame-payload-differs-from-the-declared-length")
             ELSE Set([t EXCEPT !.fr.on = FALSE, !.mw.framed = IF t.fr.data /\ t.mw.on THEN @ + e.a ELSE @])
+       \* ---- close frames: what goes on the wire is what this goroutine's writeClose was asked to send (C06) ----
+       [] e.ev = "WcBegin" -> Set([t EXCEPT !.wc = [x \in DOMAIN t.wc \cup {e.g} |-> IF x = e.g THEN e.a ELSE t.wc[x]]])
+       [] e.ev = "WfCtl" /\ e.a = OpClose ->
+            IF e.g \notin DOMAIN t.wc THEN Fail("close-frame-written-without-a-close-request")
+            ELSE IF t.wc[e.g] = 1005 /\ (e.b # -1 \/ e.d # 0) THEN Fail("close-frame-on-the-wire-differs-from-the-close-requested")
+            ELSE IF t.wc[e.g] # 1005 /\ e.b # t.wc[e.g] THEN Fail("close-frame-on-the-wire-differs-from-the-close-requested")
+            ELSE Same
        [] e.ev = "WfRet" ->
             \* a data frame that failed: the message is broken, its byte count is not judged any more
             IF e.b # 0 /\ e.a \in DataOps /\ t.mw.on THEN Set([t EXCEPT !.mw.broken = TRUE, !.fr.on = FALSE])
